@@ -53,7 +53,7 @@ func amtOfCoins(c sdk.Coins) ref.Amt {
 
 func c01Genesis() harness.Genesis {
 	g := c13Genesis()
-	g.Balances = map[string]sdk.Coins{"A": coins(100), "B": coins(50), "U1": coins(0), "U2": coins(0)}
+	g.Balances = map[string]sdk.Coins{"A": coins(100), "B": sdk.NewCoins(sdk.NewInt64Coin(harness.Denom, 50), sdk.NewInt64Coin(denomB, 5)), "U1": coins(0), "U2": coins(0)}
 	g.Vesting.VestingTypes = append(g.Vesting.VestingTypes, vtypes.GenesisVestingType{Name: "t0", LockupPeriod: 3, LockupPeriodUnit: "second", VestingPeriod: 6, VestingPeriodUnit: "second", Free: sdk.ZeroDec()})
 	return g
 }
@@ -79,6 +79,10 @@ func c01Events() []Ev {
 			return &sigtypes.MsgStoreSignature{Creator: harness.AddrS("B"), StorageKey: "sk1", SignatureJSON: `{"signature":"AA==","algorithm":"x","certificate":"y"}`}, "B"
 		}},
 		Ev{Name: "tx-with-fee(B,7)", Fee: coins(7), Build: func(v View) (sdk.Msg, string) {
+			return vtypes.NewMsgWithdrawAllAvailable(harness.AddrS("B")), "B"
+		}},
+		// a fee in a second denomination: its sub-unit shares stay on the books of burn and destinations
+		Ev{Name: "tx-with-fee(B,1ubb)", Fee: sdk.NewCoins(sdk.NewInt64Coin(denomB, 1)), Build: func(v View) (sdk.Msg, string) {
 			return vtypes.NewMsgWithdrawAllAvailable(harness.AddrS("B")), "B"
 		}},
 		Ev{Name: "gov:minter(valid3)", Gov: true, Build: func(v View) (sdk.Msg, string) {
